@@ -51,12 +51,13 @@ type C06Case struct {
 	LogLen   int    `json:"log_len"`             // entries after the configuration entry
 	Compact  bool   `json:"compacted,omitempty"` // the whole log is covered by a snapshot and compacted away (TrailingLogs=0)
 	Msgs     []VMsg `json:"msgs"`
-	FaultAt  int    `json:"fault_at"`   // ordinal of the stable-store write to disturb (0 = none)
-	Mode     int    `json:"fault_mode"` // sim.Decision
+	FaultAt  int    `json:"fault_at"`                // ordinal of the stable-store write to disturb (0 = none)
+	ReadAt   int    `json:"read_fault_at,omitempty"` // ordinal of the vote-record read (LastVoteTerm / LastVoteCand, while handling a request) that fails (0 = none)
+	Mode     int    `json:"fault_mode"`              // sim.Decision
 }
 
 func (c C06Case) String() string {
-	return fmt.Sprintf("config=%s term=%d vote=(%d,%s) loglen=%d msgs=%v fault@%d mode=%d", c.CfgKind, c.Term, c.VoteTerm, c.VoteCand, c.LogLen, c.Msgs, c.FaultAt, c.Mode)
+	return fmt.Sprintf("config=%s term=%d vote=(%d,%s) loglen=%d msgs=%v fault@%d mode=%d readfault@%d", c.CfgKind, c.Term, c.VoteTerm, c.VoteCand, c.LogLen, c.Msgs, c.FaultAt, c.Mode, c.ReadAt)
 }
 
 func c06Seed(c C06Case) (Seed, []string) {
@@ -73,7 +74,8 @@ func c06Seed(c C06Case) (Seed, []string) {
 	if cfg != nil {
 		s.Log = append(s.Log, Entry{Term: 1, Config: cfg})
 		for i := 0; i < c.LogLen; i++ {
-			s.Log = append(s.Log, Entry{Term: uint64(i + 2), Payload: uint64(100 + i)})
+			// (the last two entries share a term: "shorter log, same last term" is a case of its own)
+			s.Log = append(s.Log, Entry{Term: uint64(i/2 + 2), Payload: uint64(100 + i)})
 		}
 	} else {
 		s.Term, s.VoteTerm, s.VoteCand = 0, 0, ""
@@ -93,6 +95,7 @@ func c06Seed(c C06Case) (Seed, []string) {
 }
 
 type c06Result struct {
+	voteReads int
 	stableOps int
 	viol      []string // rule|signature|detail
 	grants    int
@@ -128,6 +131,18 @@ func c06Run(c C06Case) c06Result {
 	if in.R == nil {
 		res.viol = append(res.viol, fmt.Sprintf("R3|C06/R3/newraft-fails|NewRaft failed: %v %v", in.StartErr, in.StartPanic))
 		return res
+	}
+	// reads of the vote record made while a request is handled (not at start-up)
+	w.StableReadFault = func(_ *sim.Instance, key string) bool {
+		if key != "LastVoteTerm" && key != "LastVoteCand" {
+			return false
+		}
+		res.voteReads++
+		if c.ReadAt != 0 && res.voteReads == c.ReadAt {
+			res.faulted = true
+			return true
+		}
+		return false
 	}
 	if seed.Compacted != nil {
 		seed.Log = seed.Compacted // the reference below reasons about the history, wherever it is stored
@@ -229,6 +244,9 @@ func c06Run(c C06Case) c06Result {
 				}
 			case *raft.RequestPreVoteResponse:
 				rterm = r.Term
+				if r.Granted && behind {
+					res.viol = append(res.viol, fmt.Sprintf("R2|C06/R2/pre-vote-granted-to-candidate-with-stale-log|step %d %v: candidate last (%d,%d) is behind the voter's (%d,%d)", step, m, li, lt, lastIdx, lastTerm))
+				}
 				if h.In.R.CurrentTerm() != termBefore || stable != stableBefore {
 					res.viol = append(res.viol, fmt.Sprintf("R3|C06/R3/pre-vote-changed-durable-state|step %d %v: term %d -> %d, %d stable writes", step, m, termBefore, h.In.R.CurrentTerm(), stable-stableBefore))
 				}
@@ -405,6 +423,17 @@ func TestC06Enumerate(t *testing.T) {
 						}
 					}
 				}
+				for k := 1; k <= br.voteReads; k++ {
+					c := base
+					c.ReadAt = k
+					var fr c06Result
+					sim.Bubble(t, func() { fr = c06Run(c) })
+					r.CaseDistinct(fr.faulted, "vote-record-read-error")
+					if len(fr.viol) > 0 {
+						c06Report(r, c, fr.viol[0])
+						return false
+					}
+				}
 			}
 		} else if len(msgs) > 0 {
 			excluded++
@@ -446,6 +475,11 @@ func TestC06Random(t *testing.T) { c06Random(t, "C06", "TestC06Random", nil) }
 func TestC01Votes(t *testing.T) {
 	c06Random(t, "C01", "TestC01Votes", map[string]string{"C06/R1/two-candidates-granted-in-one-term": "R3|C01/R3/two-candidates-granted-in-one-term"})
 }
+func TestC14PreVotes(t *testing.T) {
+	c06Random(t, "C14", "TestC14PreVotes", map[string]string{
+		"C06/R2/pre-vote-granted-to-candidate-with-stale-log": "R2|C14/R2/pre-vote-granted-to-candidate-with-stale-log",
+		"C06/R3/pre-vote-changed-durable-state":               "R1|C14/R1/pre-vote-changed-durable-state"})
+}
 func TestC03Votes(t *testing.T) {
 	c06Random(t, "C03", "TestC03Votes", map[string]string{"C06/R2/vote-granted-to-candidate-with-stale-log": "R1|C03/R1/vote-granted-to-candidate-with-stale-log"})
 }
@@ -466,6 +500,9 @@ func c06Random(t *testing.T, prop, test string, remap map[string]string) {
 		}
 		c := C06Case{CfgKind: st.Cfg, Term: 3, VoteTerm: st.VoteTerm, VoteCand: st.VoteCand, LogLen: st.LogLen, Compact: st.Compact, Msgs: msgs,
 			FaultAt: rapid.IntRange(0, 8).Draw(rt, "faultAt"), Mode: rapid.IntRange(1, 3).Draw(rt, "mode")}
+		if rapid.IntRange(0, 3).Draw(rt, "readFault") == 0 {
+			c.FaultAt, c.ReadAt = 0, rapid.IntRange(1, 8).Draw(rt, "readAt")
+		}
 		var res c06Result
 		sim.Bubble(t, func() { res = c06Run(c) })
 		r.Case(res.faulted, rep.Hash(c.String()), map[bool]string{true: "faulted", false: "fault-free"}[res.faulted])
